@@ -1,5 +1,6 @@
 // driver TU for C05 (+ the queue-related members of suspend_point for C06): instantiation by use.
 #include <cocls/suspend_point.h>
+#include <new>
 using namespace cocls;
 extern "C" {
 bool drv_is_active() { return coro_queue::is_active(); }
@@ -17,4 +18,12 @@ void drv_suspend_now(suspend_point<void> *a) { a->suspend_now(); }
 void drv_clear(suspend_point<void> *a) { a->clear(); }
 void drv_dtor(suspend_point<void> *a) { a->~suspend_point<void>(); }
 void *drv_await_suspend(suspend_point<void> *a, std::coroutine_handle<> h) { return a->await_suspend(h).address(); }
+/* coro_queue::create_suspend_point(Fn&&) for a void-returning and an int-returning functor; the functor bodies are the environment
+ * (external C functions supplied by the spec: they make coroutines ready = append to the thread's ready queue) */
+void c05_fn_void(void *ctx);
+int c05_fn_int(void *ctx);
+struct c05_FnV { void *ctx; void operator()() const { c05_fn_void(ctx); } };
+struct c05_FnI { void *ctx; int operator()() const { return c05_fn_int(ctx); } };
+void drv_csp_void(suspend_point<void> *out, void *ctx) { new (out) suspend_point<void>(coro_queue::create_suspend_point(c05_FnV{ctx})); }
+void drv_csp_int(suspend_point<int> *out, void *ctx) { new (out) suspend_point<int>(coro_queue::create_suspend_point(c05_FnI{ctx})); }
 }
